@@ -511,6 +511,22 @@ def threeWayMerge (cmp : Bytes → Bytes → Ordering) (collide : Collide) (base
   let (ps, cs) ← sendPatches cmp collide fuel ld rd
   pure (applyPatches cmp left.flatten ps, ps, cs)
 
+/-- The cause of the known finding `MergeMaps/canonical-shape`, read off the patch stream of the
+(unchanged) `SendPatches`: a *range* patch that carries a subtree (`To ≠ nil`) whose end key is
+right's very last key — i.e. the patch for the last node of its level in `right` — while `left`
+still has a key sorting after it.  `getNextAndSplitIfAtEnd` never returns such a patch (its loop
+only exits when `to.atEnd()` is false, the patch is a point patch or a removal), so in the unchanged
+code it can only come from one of the two bare `r.split(ctx)` calls inside `SendPatches`. -/
+def knownCanonicalCause (cmp : Bytes → Bytes → Ordering) (left right : Tree) (ps : List Patch) : Bool :=
+  match right.flatten.getLast? with
+  | none => false
+  | some lastR =>
+    ps.any (fun p =>
+      p.level > 0 &&
+      (match p.to? with | some (.sub _ _) => true | _ => false) &&
+      cmp p.endKey lastR.1 == .eq &&
+      left.flatten.any (fun kv => cmp p.endKey kv.1 == .lt))
+
 /-- all patches of one generator (base→to), as `Next` would produce them without any split -/
 def drainPG (cmp : Bytes → Bytes → Ordering) (fuel : Nat) : Nat → PG → List (Patch × DiffType) → M (List (Patch × DiffType))
   | 0, _, _ => .error .fuel
